@@ -35,6 +35,15 @@ type field struct {
 	off   int
 	width int
 	chunk int // index into chunks, -1 for the RIFF header
+	// a sub-field of the width bytes read as a little-endian integer: nbits bits starting at bit shift (nbits 0 = all)
+	shift, nbits int
+	// for length fields: the largest value for which the region the field measures still ends inside its container
+	// (-1 = not a length)
+	limit int
+}
+
+func fld(name string, off, width, chunk int) field {
+	return field{name: name, off: off, width: width, chunk: chunk, limit: -1}
 }
 
 type chunkExt struct {
@@ -53,40 +62,40 @@ func fieldsFromLayout(l layoutLine, data []byte) ([]field, []chunkExt) {
 		nested := strings.HasPrefix(e.Name, "ANMF/")
 		switch {
 		case e.Name == "RIFF:header":
-			fs = append(fs, field{"RIFF tag", 0, 4, -1}, field{"RIFF size", 4, 4, -1}, field{"WEBP tag", 8, 4, -1})
+			fs = append(fs, fld("RIFF tag", 0, 4, -1), field{name: "RIFF size", off: 4, width: 4, chunk: -1, limit: len(data) - 8}, fld("WEBP tag", 8, 4, -1))
 		case strings.HasSuffix(e.Name, ":chunk-header"):
 			sz := int(binary.LittleEndian.Uint32(data[e.From+4:]))
 			cs = append(cs, chunkExt{hdr: e.From, payload: e.To, size: sz, end: e.To + sz + sz%2, nested: nested})
 			cur = len(cs) - 1
 			nm := strings.TrimSuffix(e.Name, ":chunk-header")
-			fs = append(fs, field{nm + " tag", e.From, 4, cur}, field{nm + " chunk size", e.From + 4, 4, cur})
+			fs = append(fs, fld(nm+" tag", e.From, 4, cur), field{name: nm + " chunk size", off: e.From + 4, width: 4, chunk: cur, limit: len(data) - e.To})
 		case e.Name == "VP8X:payload":
-			fs = append(fs, field{"VP8X flags", e.From, 1, cur}, field{"VP8X reserved", e.From + 1, 3, cur}, field{"VP8X canvas width", e.From + 4, 3, cur}, field{"VP8X canvas height", e.From + 7, 3, cur})
+			fs = append(fs, fld("VP8X flags", e.From, 1, cur), fld("VP8X reserved", e.From+1, 3, cur), fld("VP8X canvas width", e.From+4, 3, cur), fld("VP8X canvas height", e.From+7, 3, cur))
 		case e.Name == "ANIM:payload":
-			fs = append(fs, field{"ANIM background", e.From, 4, cur}, field{"ANIM loop count", e.From + 4, 2, cur})
+			fs = append(fs, fld("ANIM background", e.From, 4, cur), fld("ANIM loop count", e.From+4, 2, cur))
 		case e.Name == "ANMF:frame-header":
 			for i, n := range []string{"x offset", "y offset", "width", "height", "duration"} {
-				fs = append(fs, field{"ANMF " + n, e.From + 3*i, 3, cur})
+				fs = append(fs, fld("ANMF "+n, e.From+3*i, 3, cur))
 			}
-			fs = append(fs, field{"ANMF flags", e.From + 15, 1, cur})
+			fs = append(fs, fld("ANMF flags", e.From+15, 1, cur))
 		case strings.HasSuffix(e.Name, "VP8 :frame-header"):
-			fs = append(fs, field{"VP8 frame tag (partition 0 length)", e.From, 3, cur}, field{"VP8 start code", e.From + 3, 3, cur}, field{"VP8 width", e.From + 6, 2, cur}, field{"VP8 height", e.From + 8, 2, cur})
+			fs = append(fs, fld("VP8 frame tag", e.From, 3, cur), field{name: "VP8 partition 0 length", off: e.From, width: 3, chunk: cur, shift: 5, nbits: 19, limit: cs[cur].size - 10}, fld("VP8 start code", e.From+3, 3, cur), fld("VP8 width", e.From+6, 2, cur), fld("VP8 height", e.From+8, 2, cur))
 		case strings.HasSuffix(e.Name, "VP8 :partition0"):
 			if e.To-e.From >= 2 {
-				fs = append(fs, field{"VP8 first bytes of partition 0", e.From, 2, cur})
+				fs = append(fs, fld("VP8 first bytes of partition 0", e.From, 2, cur))
 			}
 		case strings.HasSuffix(e.Name, "VP8 :token-partitions"):
 			if e.To-e.From >= 3 {
-				fs = append(fs, field{"VP8 partition table / first token bytes", e.From, 3, cur})
+				fs = append(fs, fld("VP8 partition table / first token bytes", e.From, 3, cur))
 			}
 		case strings.HasSuffix(e.Name, "VP8L:header"):
-			fs = append(fs, field{"VP8L signature", e.From, 1, cur}, field{"VP8L dimensions+alpha+version", e.From + 1, 4, cur})
+			fs = append(fs, fld("VP8L signature", e.From, 1, cur), fld("VP8L dimensions+alpha+version", e.From+1, 4, cur))
 		case strings.HasSuffix(e.Name, "VP8L:data"):
 			if e.To-e.From >= 4 {
-				fs = append(fs, field{"VP8L first data bytes", e.From, 4, cur})
+				fs = append(fs, fld("VP8L first data bytes", e.From, 4, cur))
 			}
 		case strings.HasSuffix(e.Name, "ALPH:header"):
-			fs = append(fs, field{"ALPH header byte", e.From, 1, cur})
+			fs = append(fs, fld("ALPH header byte", e.From, 1, cur))
 		}
 	}
 	return fs, cs
@@ -108,13 +117,32 @@ func applyFaults(base []byte, fs []field, cs []chunkExt, faults []fault, foreign
 		}
 		desc += fmt.Sprintf("%s:%s=%s;", f.Kind, fd.name, f.Arg)
 		if f.Kind == "set" {
-			var t uint64
+			var whole uint64
 			for i := fd.width - 1; i >= 0; i-- {
-				t = t<<8 | uint64(out[fd.off+i])
+				whole = whole<<8 | uint64(out[fd.off+i])
 			}
-			max := uint64(1)<<uint(8*fd.width) - 1
+			nb := 8 * fd.width
+			if fd.nbits > 0 {
+				nb = fd.nbits
+			}
+			max := uint64(1)<<uint(nb) - 1
+			t := whole >> uint(fd.shift) & max
+			lim := t // fields that measure nothing: the boundary classes fall back to the true value
+			if fd.limit >= 0 {
+				lim = uint64(fd.limit)
+			}
 			var v uint64
 			switch f.Arg {
+			case "limit-1":
+				v = lim - 1
+			case "limit":
+				v = lim
+			case "limit+1":
+				v = lim + 1
+			case "limit+5":
+				v = lim + 5
+			case "limit+10":
+				v = lim + 10
 			case "t-1":
 				v = t - 1
 			case "t+1":
@@ -142,14 +170,15 @@ func applyFaults(base []byte, fs []field, cs []chunkExt, faults []fault, foreign
 			case "flip-low-bit":
 				v = t ^ 1
 			case "flip-high-bit":
-				v = t ^ (1 << uint(8*fd.width-1))
+				v = t ^ (1 << uint(nb-1))
 			default:
 				n, _ := strconv.Atoi(f.Arg)
 				v = uint64(n)
 			}
 			v &= max
+			whole = whole&^(max<<uint(fd.shift)) | v<<uint(fd.shift)
 			for i := 0; i < fd.width; i++ {
-				out[fd.off+i] = byte(v >> uint(8*i))
+				out[fd.off+i] = byte(whole >> uint(8*i))
 			}
 			continue
 		}
@@ -766,7 +795,14 @@ func checkC05(args []string) {
 		if declaredArea(data) > 32<<20 {
 			base := strings.SplitN(sig, "|", 2)[0]
 			hugePerBase[base]++
-			if hugePerBase[base] > run.Pick(1, 1000) {
+			lim := 1000
+			if !run.Thorough() { // the quick tier keeps one such input for a still and one for an animation
+				lim = 0
+				if base == "lossy-alpha-meta" || base == "animation-lossless" {
+					lim = 1
+				}
+			}
+			if hugePerBase[base] > lim {
 				skippedHuge++
 				return
 			}
